@@ -5,8 +5,7 @@ import collections, hashlib, json, os, shutil
 import vflib, clirun
 from vflib import ROOT, CACHE
 
-CLS = ["known_C13_status_names_only", "known_C13_sql_prefix", "known_C13_unfilled_not_null",
-       "known_C13_pattern_without_version", "known_C13_version_saturated"]
+CLS = ["known_C13_sql_prefix", "known_C13_invalid_enum_fill", "known_C13_pattern_without_version", "known_C13_version_saturated"]
 
 RULE = ("projects = corpus witnesses (corpus/cli/c13_*.json) + evolutions of loader-accepted model sets from the shared generator, each under a drawn "
         "configuration (prefix ''/'app_', json/yaml/yml model and migration files, 8 filename patterns, default/custom directories, files in sub-directories); "
@@ -82,7 +81,8 @@ def run(tier, seed):
     # share of observations that fall under a proved positive theorem rather than being merely tested
     n = max(len(rows), 1)
     chk.cov["theorem_coverage"].update({
-        "diff_iff_revision (all projects)": 1.0,
+        "diff_iff_revision, status_sync_iff_no_diff, revision_output_loadable, revision_append_only (all projects)": 1.0,
+        "log_equals_runtime (every stored plan validates)": round(sum(1 for r in rows if r["obs"]["log"][0] != "err") / n, 3),
         "sql_renders_diff (prefix '')": round(sum(1 for r in rows if not r["config"].get("prefix")) / n, 3),
         "sql_renders_prefixed_diff_without_history (no stored migration)": round(sum(1 for r in rows if not r["migrations"]) / n, 3),
         "revision_never_overwrites (default pattern)": round(sum(1 for r in rows if r["config"].get("migrationFilenamePattern", "%04v_%m") == "%04v_%m") / n, 3)})
